@@ -1195,6 +1195,87 @@ def fam_search(P, n, tier):
     return out
 
 
+def fam_overlap(P, n, tier):
+    """both machines walking over variables at overlapping times: a command line (READ with a read handler and
+    read callbacks, or WRITE of all variables) is served while an event on the same or on another command with
+    variables is triggered after k service calls, k swept over the whole duration of the line"""
+    out = []
+    for i in range(n):
+        k = i % 36
+        sc = Scn('ovl%d' % i, cap=P.choice(CAPS), buf_size=P.choice([64, 80]), ubuf_size=P.choice([-1, 40]), fill=0)
+        xv = [Var(UINT, 1, RW, init=bytes([11 + 11 * j]), hread=P.chance(0.5)) for j in range(P.choice([2, 3, 4]))]
+        x = Cmd('+X', r=True, w=True, vars=xv)
+        yv = [Var(UINT, 1, RW, init=bytes([70 + j])) for j in range(P.choice([1, 2, 3]))]
+        y = Cmd('+Y', vars=yv)
+        sc.add_group([x, y])
+        sc.script(1, x.ci, 0, [Res(RC['OK'])] * 8)
+        sc.script(0, x.ci, 0, [Res(RC['OK'])] * 8)
+        for vi, v in enumerate(xv):
+            if v.hread:
+                sc.script(4, x.ci, vi, [Res(0)] * 8)
+        mode = i % 2
+        if mode == 0:
+            sc.feed('AT+X?\n')
+        else:
+            sc.feed('AT+X=' + ','.join(str(1 + j) for j in range(len(xv))) + '\n')
+        if k:
+            sc.service(k)
+        ev = x if (i // 2) % 2 == 0 else y
+        sc.op('t %d %d' % (ev.ci, T_READ))
+        sc.drain(3000)
+        sc.feed('AT+X?\n')
+        sc.drain(3000)
+        out.append(sc)
+    return out
+
+
+def fam_testev(P, n, tier):
+    """C19: the TEST text produced for unsolicited TEST events, for every descriptor shape (description only,
+    variables only, both, unnamed variables, test handler), with the event buffer around the text length;
+    no command input, so every unit is framed by plain LF"""
+    out = []
+    for i in range(n):
+        shapes = []
+        for j in range(P.randint(2, 5)):
+            kind = P.choice(['descr', 'descr', 'vars', 'both', 'handler', 'none'])
+            vars = []
+            if kind in ('vars', 'both'):
+                vars = [rand_var(P, callbacks=False, odd_sizes=0.05) for _ in range(P.randint(1, 3))]
+                for v in vars:
+                    if P.chance(0.5):
+                        v.name = P.choice(['x', 'speed', 'v1'])
+            shapes.append(Cmd('+T%d' % j, descr=(P.choice(['d', 'some text', 'Q' * P.randint(1, 30)]) if kind in ('descr', 'both') or P.chance(0.2) else None),
+                              t=(kind == 'handler'), r=P.chance(0.2), run=P.chance(0.3), vars=vars))
+        texts = [len(ref_len_test_text(c)) for c in shapes]
+        usz = max(3, P.choice(texts) + P.choice([-1, 0, 1, 2, 5]))
+        shared = P.chance(0.5)
+        sc = Scn('tev%d' % i, cap=P.choice(CAPS), buf_size=(2 * usz if shared else P.choice([24, 40])), ubuf_size=(-1 if shared else usz), fill=P.choice([0, 0x55]))
+        if sc.asz() < 6:
+            sc.buf_size = 12 if shared else 6
+        cut = P.randint(1, len(shapes))
+        sc.add_group(shapes[:cut])
+        for c in shapes[cut:]:
+            sc.add_extra(c)
+        for c in sc.pool():
+            if c.t:
+                sc.script(3, c.ci, 0, [Res(P.choice([RC['DATA_OK'], RC['OK'], RC['DATA_OK']]))] * 6)
+        sched(P, sc, style=P.choice(['eager', 'rand']))
+        for j in range(P.randint(2, 8)):
+            c = P.choice(sc.pool())
+            sc.op('t %d %d' % (c.ci, T_TEST))
+            if P.chance(0.6):
+                sc.drain(3000)
+        sc.drain(6000)
+        out.append(sc)
+    return out
+
+
+def ref_len_test_text(c):
+    import oracles
+    t = oracles.ref_test_text(c, '\n')
+    return t if t is not None else ''
+
+
 def fam_manycmds(P, n, tier):
     """C02/C09: tables of several hundred commands sharing a prefix: abbreviations with 255..258 candidates
     (counter widths), the unique / ambiguous boundary moved by disabling single commands between lines"""
@@ -1333,7 +1414,7 @@ def fam_exharg(P, n, tier):
 FAMILIES = {
     'mixed': fam_mixed, 'names': fam_names, 'num': fam_num, 'buf': fam_buf, 'cap': fam_cap, 'rc': fam_rc,
     'events': fam_events, 'hold': fam_hold, 'mutex': fam_mutex, 'lines': fam_lines, 'rt': fam_rt,
-    'wo': fam_wo, 'list': fam_list, 'bytes': fam_bytes, 'sched': fam_sched, 'units': fam_units, 'lanes': fam_lanes, 'search': fam_search, 'manycmds': fam_manycmds, 'exh': fam_exh, 'mxev': fam_mxev, 'exharg': fam_exharg,
+    'wo': fam_wo, 'list': fam_list, 'bytes': fam_bytes, 'sched': fam_sched, 'units': fam_units, 'lanes': fam_lanes, 'search': fam_search, 'manycmds': fam_manycmds, 'testev': fam_testev, 'overlap': fam_overlap, 'exh': fam_exh, 'mxev': fam_mxev, 'exharg': fam_exharg,
 }
 
 
